@@ -16,6 +16,8 @@ COQ_FILES = ["Bytes.v", "FrameModel.v", "FrameProofs.v", "TagModel.v", "TagProof
 
 STRS = ["x", "a b", " lead", "trail ", "é", "日本", "=", "a=b", "a: b", "OK", "ACK [5@0] {} x", "list_OK", "0", "tab\there", "\"q\"", "x" * 300,
         # carriage returns and other control characters are ordinary bytes of a value, wherever they stand (the line ends at the line feed)
+        # values longer than the receive buffer and its first doubling (one line of 4097 .. 9000 bytes)
+        "y" * 4097, "z" * 4096, "w" * 9000,
         "Live\r", "\r", "a\rb", "\rlead", "x\r\r", "end\t", "bell\x07", "\x7f", "nbsp\u00a0", "\u00a0", "x\u2028", "trail\u3000"]
 NAMES = ["rating", "playcount", "a b", "é", "x_y", "0"]
 TS = ["2024-01-02T03:04:05Z", "1970-01-01T00:00:00Z", "2038-12-28T23:59:59Z", "0001-02-03T00:00:00Z",
